@@ -57,15 +57,36 @@ fn check(p: &[u8], t: &[u8], k: usize) -> Result<(), String> {
             let my: long::Myers<u64> = long::Myers::new(&p[..]);
             let got: Vec<(usize, usize)> = my.find_all_end(&t[..], k).collect();
             if got != want { return Err(format!("block Myers<u64> find_all_end(k={}) = {:?}, definition gives {:?}", k, got, want)); }
+            // distance() / find_best_end() of the block-based version (patterns of any length)
+            if let Some((bi, bd)) = best {
+                let my8: long::Myers<u8> = long::Myers::new(&p[..]);
+                if my8.distance(&t[..]) != bd { return Err(format!("block Myers<u8> distance = {}, want {}", my8.distance(&t[..]), bd)); }
+                if my8.find_best_end(&t[..]) != (bi, bd) { return Err(format!("block Myers<u8> find_best_end = {:?}, want {:?}", my8.find_best_end(&t[..]), (bi, bd))); }
+                if my.distance(&t[..]) != bd { return Err(format!("block Myers<u64> distance = {}, want {}", my.distance(&t[..]), bd)); }
+            }
         }
         {
             let mut uk = Ukkonen::with_capacity(p.len(), unit_cost);
             let got: Vec<(usize, usize)> = uk.find_all_end(&p[..], &t[..], k).collect();
             if got != want { return Err(format!("Ukkonen find_all_end(k={}) = {:?}, definition gives {:?}", k, got, want)); }
+            // the same object reused for other searches (shorter / longer pattern, other k) and then again for this one
+            for (p2, k2) in [(&t[..t.len().min(3)], k + 2), (&p[..1], 0), (&t[..], k + 3)].iter() {
+                if p2.is_empty() { continue; }
+                let e2 = ends(p2, &p);
+                let w2: Vec<(usize, usize)> = e2.iter().cloned().enumerate().filter(|x| x.1 <= *k2).collect();
+                let g2: Vec<(usize, usize)> = uk.find_all_end(p2, &p[..], *k2).collect();
+                if g2 != w2 { return Err(format!("reused Ukkonen: find_all_end(p2={:?}, k={}) = {:?}, definition gives {:?}", p2, k2, g2, w2)); }
+            }
+            let got: Vec<(usize, usize)> = uk.find_all_end(&p[..], &t[..], k).collect();
+            if got != want { return Err(format!("reused Ukkonen find_all_end(k={}) = {:?}, definition gives {:?}", k, got, want)); }
         }
         let l = lev(&p, &t);
         if levenshtein(&p, &t) as usize != l { return Err(format!("levenshtein = {}, want {}", levenshtein(&p, &t), l)); }
         if simd::levenshtein(&p, &t) as usize != l { return Err(format!("simd::levenshtein = {}, want {}", simd::levenshtein(&p, &t), l)); }
+        for kk in [l.saturating_sub(1), l, l + 1].iter() {
+            let b = simd::bounded_levenshtein(&p, &t, *kk as u32);
+            if b != (if l <= *kk { Some(l as u32) } else { None }) { return Err(format!("bounded_levenshtein(k={}) = {:?}, distance is {}", kk, b, l)); }
+        }
         let b = simd::bounded_levenshtein(&p, &t, k as u32);
         if b != (if l <= k { Some(l as u32) } else { None }) { return Err(format!("bounded_levenshtein(k={}) = {:?}, distance is {}", k, b, l)); }
         if p.len() == t.len() {
@@ -96,6 +117,12 @@ pub fn search(seed: u64, budget: &Budget, thorough: bool) -> (u64, Option<(Strin
         let mut t = rng.bytes(rng.below(60) as usize, alpha);
         if rng.below(2) == 0 { let mut q = p.clone(); if !q.is_empty() && rng.below(2) == 0 { let i = rng.below(q.len() as u64) as usize; q[i] = *rng.pick(alpha); } let at = rng.below(t.len() as u64 + 1) as usize; let tail = t.split_off(at); t.extend(q); t.extend(tail); }
         let k = rng.below(6) as usize;
+        if pl > 8 && rng.below(2) == 0 {
+            // multi-word pattern, text = noise + copy of the pattern with exactly <= k edits + noise
+            let mut q = p.clone();
+            for _ in 0..k { let i = rng.below(q.len() as u64) as usize; match rng.below(3) { 0 => { q[i] = *rng.pick(alpha); } 1 => { q.remove(i); } _ => { q.insert(i, *rng.pick(alpha)); } } if q.is_empty() { q.push(alpha[0]); } }
+            t = rng.bytes(rng.below(6) as usize, alpha); t.extend(q); t.extend(rng.bytes(rng.below(4) as usize, alpha));
+        }
         tried += 1;
         if let Err(e) = check(&p, &t, k) { return (tried, Some((format!("k={} p={} t={}", k, hex(&p), hex(&t)), e))); }
     }
